@@ -20,8 +20,8 @@ from machines.memview import View, handlers as mem_handlers
 PID = "C13"
 RULE = (
     "all programs with <= N ops from {DM copy x->y, compute f(x)->y} over buffers {a,b,c} (all operand choices; buffer c may be accessed through a subview "
-    "alias or be a local allocation deallocated at the end), pre-existing barriers at any position, nested in scf.for (depth <= 1 quick / 2 thorough) "
-    "x trip counts {0,1,2}; all interleavings of the two (three) cores between barriers. distinct = distinct (program, trips, reachable outcome set); "
+    "alias or be a local allocation deallocated at the end), pre-existing barriers at any position, nested in scf.for / scf.if / scf.if-else (depth <= 1 quick / 2 thorough) "
+    "x trip counts {0,1,2} x branch conditions; all interleavings of the two (three) cores between barriers. distinct = distinct (program, trips, reachable outcome set); "
     "non-trivial = some reachable machine state has >= 2 cores enabled"
 )
 ASSUMPTIONS = [
@@ -100,7 +100,7 @@ def space(tier):
     b = BOUNDS[tier]
     bufs = ["a", "b", "c"]
     leaves = [("D", s, d) for s in bufs for d in bufs if s != d] + [("C", s, d) for s in bufs for d in bufs if s != d] + [("B",)]
-    g = ST.Grammar(leaves, controls=("FOR",), max_depth=b["depth"])
+    g = ST.Grammar(leaves, controls=("FOR", "IF", "IFE"), max_depth=b["depth"])
     progs = []
     for p in g.programs(b["ops"] + b["depth"]):
         nops = ST.count(p, lambda s: s[0] in ("D", "C"))
@@ -111,9 +111,25 @@ def space(tier):
             continue
         progs.append(p)
     out = []
+    if tier == "quick":
+        # two ops at nesting depth 2 (producer and consumer at different depths of a common loop / conditional)
+        g2 = ST.Grammar(leaves, controls=("FOR", "IF", "IFE"), max_depth=2)
+        seen = set(progs)
+        for p in g2.programs(5):
+            nops = ST.count(p, lambda s: s[0] in ("D", "C"))
+            if p in seen or nops != 2 or ST.count(p, lambda s: s[0] == "B") > 1:
+                continue
+            if ST.count(p, lambda s: s[0] == "D") != 1:
+                continue
+            out.append((p, "arg"))
     for p in progs:
         uses_c = ST.count(p, lambda s: s[0] in ("D", "C") and "c" in s[1:]) > 0
         out.append((p, "arg"))
+        if tier == "quick" and ST.nif(p):
+            # conditionals: plain arguments and the two-alias variant only
+            if ST.count(p, lambda s: s[0] in ("D", "C") and "c" in s[1:]) >= 2:
+                out.append((p, "sv2"))
+            continue
         if uses_c:
             out.append((p, "alloc"))
             out.append((p, "sv"))
@@ -211,10 +227,10 @@ def evaluate(case, only=None, tier=None) -> CaseResult:
     r.count("barriers_inserted", out_text.count("snax.cluster_sync_op") - text.count("snax.cluster_sync_op"))
     init = {"a": ("init", "a"), "b": ("init", "b"), "c": ("init", "c")}
     obs_all = []
-    for trips in itertools.product(b["trips"], repeat=nfor):
-        if only is not None and list(trips) != only:
+    for trips, conds in itertools.product(itertools.product(b["trips"], repeat=nfor), itertools.product((1, 0), repeat=nif)):
+        if only is not None and (list(trips) != only[0] or list(conds) != only[1]):
             continue
-        args = make_args(variant, trips, ())
+        args = make_args(variant, trips, conds)
         ref_events, s0 = core_events(base, args, 0, 1)
         ref = CM.sequential(ref_events, init)
         lists = []
@@ -229,20 +245,20 @@ def evaluate(case, only=None, tier=None) -> CaseResult:
         r.count("states_with_two_cores_enabled", multi)
         if multi:
             r.count("executions_with_real_concurrency")
-        obs_all.append((trips, len(finals), len(problems)))
-        key = f"{prog!r}|{variant}|{trips}"
-        case_j = dict(prog=prog, variant=variant, trips=list(trips), output_ir=out_text, per_core_events=[[list(map(str, e)) for e in l] for l in lists])
+        obs_all.append((trips, conds, len(finals), len(problems)))
+        key = f"{prog!r}|{variant}|{trips}" + (f"|{conds}" if conds else "")
+        case_j = dict(prog=prog, variant=variant, trips=list(trips), conds=list(conds), output_ir=out_text, per_core_events=[[list(map(str, e)) for e in l] for l in lists])
         kinds = set()
         for kind, msg in problems:
             if kind in kinds:
                 continue
             kinds.add(kind)
-            r.violate(key + "|" + kind, case_j, f"{kind}: {msg}; trips={trips}; program {prog!r} ({variant})")
+            r.violate(key + "|" + kind, case_j, f"{kind}: {msg}; trips={trips} conds={conds}; program {prog!r} ({variant})")
         bad = [f for f in finals if f != ref]
         if bad and "deadlock" not in kinds:
             f = sorted(bad, key=repr)[0]
             diff = _first_diff(ref, f)
-            r.violate(key + "|race", case_j, f"race: {len(finals)} distinct outcomes are reachable; under some interleaving {diff}; trips={trips}; program {prog!r} ({variant})")
+            r.violate(key + "|race", case_j, f"race: {len(finals)} distinct outcomes are reachable; under some interleaving {diff}; trips={trips} conds={conds}; program {prog!r} ({variant})")
     r.nontrivial = any(True for _ in obs_all)
     r.obs = (prog, variant, tuple(obs_all))
     r.sample = dict(program=repr(prog), variant=variant, output_ir=out_text)
@@ -262,4 +278,4 @@ def _first_diff(ref, got):
 
 
 def replay(case):
-    return evaluate((ST.from_json(case["prog"]), case["variant"]), only=list(case["trips"])).violations
+    return evaluate((ST.from_json(case["prog"]), case["variant"]), only=[list(case["trips"]), list(case.get("conds", []))]).violations
